@@ -19,7 +19,7 @@ func Verif_C01_mint_block() {
 		s.assumeSteps(i, T, 2)
 	}
 	// arbitrary (validation-accepted) minter state
-	g := types.GenesisState{Params: s.params, MinterState: types.MinterState{SequenceId: uint32(cur + 1), AmountMinted: verif_int_range("minted", "0", "1e40"),
+	g := types.GenesisState{Params: s.params, MinterState: types.MinterState{SequenceId: verifSeq(cur), AmountMinted: verif_int_range("minted", "0", "1e40"),
 		RemainderToMint: verif_dec_range("rtm", "0", "999999999999999999"), RemainderFromPreviousMinter: verif_dec_range("carry", "0", "999999999999999999"),
 		LastMintBlockTime: verif_time("t_last")}}
 	verif_assume(g.Validate() == nil)
